@@ -29,3 +29,16 @@ claim("C07", "chainmon", "exploration",
 claim("C08", "chainmon", "exploration",
       "For every create-bid tx the admission predicate is evaluated on the pre-state in set algebra; alarm only when a bid is accepted although the predicate is false, and when a provider update leaves an active (non auditor-gated) lease uncovered. Directed negatives make every conjunct the single false one; MatchRequirements is compared with the oracle on a complete small universe (342 225 cases).",
       CHAIN_NOTE, "runtime monitor: independent admission predicate on pre-state snapshots + exhaustive small-universe function oracle", "DESIGN.md §5 C08")
+
+claim("C16", "chainmon", "exploration",
+      "For every successful tx the ordered akash.v1 events of ResponseDeliverTx are decoded with the provider's own parser chain and walked, per object, through the object's lifecycle state machine from its pre-state to its post-state (decoded snapshots): every event must be enabled where it occurs and every change must have its event; action events exactly once per successful message; every event re-encodes to itself; failed txs carry none; plus a codec round-trip sweep (extreme ids/prices).",
+      CHAIN_NOTE + " Events are read at the ABCI boundary (the list events/publish.go consumes); RPC delivery is not exercised.",
+      "runtime monitor: trace (event sequence) checked against a per-object state machine between observed pre/post states", "DESIGN.md §5 C16")
+claim("C17", "chainmon", "exploration",
+      "Append-only reference model of (owner, serial) -> {state, pem} compared after every tx with keeper lookups for every pair ever named and with the real gRPC querier for every filter shape x page sizes {0,1,2,3} x key/offset pagination followed to the end; serials 0..2^159 with prefix-colliding encodings; duplicate, foreign-CN, foreign-signer and forged-signer attempts.",
+      CHAIN_NOTE + " The querier is called in-process with the deliver-state context.",
+      "runtime monitor: reference-model comparison of store and query results after every DeliverTx", "DESIGN.md §5 C17")
+claim("C19", "chainmon", "exploration",
+      "Boundary sweep (every single {min-1,min,max,max+1} choice of each bound, totals reached with counts 1/2/50, unit/group counts, names, nil / >2^64 / negative values, prices, deposits, version lengths, and all unordered pairs: ~4 000 signed create-deployment txs) judged by a big-integer limits table: alarm when admitted although outside the limits or when a rejection leaves an effect; plus a stored-state check of every deployment/group after every tx of random histories.",
+      CHAIN_NOTE + " The limits table is transcribed from the documented constants.",
+      "runtime monitor: boundary-value workload with independent big-integer oracle + stored-state invariant", "DESIGN.md §5 C19")
